@@ -398,9 +398,6 @@ func callVerifEnv(fr *frame, name string, args []value) (value, bool) {
 				}
 			}
 		}
-		if len(P.dec) != 0 {
-			panic(pathEnd{"harness-error", "verifFSCacheSave after a symbolic decision"})
-		}
 		fsCache[key] = fsys.clone()
 		return nil, true
 	case "verifFSFileLen":
